@@ -154,6 +154,7 @@ static void tail(void) {
 /* a logger that takes every line (so that aws_mem_tracer_dump really formats its report) and lets other threads run between
  * two lines: what the dump reads while it prints must stay valid whatever they do */
 static int dump_lines;
+static int frames_per_stack;
 static int null_log(struct aws_logger *l, enum aws_log_level lv, aws_log_subject_t subj, const char *fmt, ...) {
     (void)l;
     (void)lv;
@@ -217,6 +218,26 @@ static void do_ops(struct prog *pg) {
             vh_int("bytes", (long long)(aws_mem_tracer_bytes(sba) / unit));
             vh_int("count", (long long)aws_mem_tracer_count(sba));
             vh_int("nlive", nsmall);
+            vh_end();
+            continue;
+        }
+        if (op[0] == 'N') {
+            /* a new generation: when nothing is live the tracer is destroyed and a new one of the same kind created (a
+             * component restarted); whatever a thread remembers about the old tracer must not be taken for the new one,
+             * even when the new one is given the old one's address */
+            bool any = concurrent_phase;
+            for (int s = 0; s < NSLOT; ++s) {
+                any |= slots[s].p != NULL;
+            }
+            if (any) {
+                continue;
+            }
+            struct aws_allocator *inner = aws_mem_tracer_destroy(sba);
+            sba = aws_mem_tracer_new(&traced, NULL, (enum aws_mem_trace_level)level, (size_t)frames_per_stack);
+            vh_begin("Renew");
+            vh_int("same", inner == &traced);
+            vh_int("bytes", (long long)aws_mem_tracer_bytes(sba));
+            vh_int("count", (long long)aws_mem_tracer_count(sba));
             vh_end();
             continue;
         }
@@ -402,6 +423,7 @@ static void scenario(char **lines, int nlines) {
     if (flavour == 1 || flavour == 2) {
         traced.mem_calloc = NULL;
     }
+    frames_per_stack = mt;
     aws_logger_set(&null_logger);
     sba = aws_mem_tracer_new(&traced, NULL, (enum aws_mem_trace_level)level, (size_t)mt);
     vh_begin("Setup");
